@@ -15,15 +15,24 @@ enclosing `if`s, negated guards of earlier early `return`s) under which it is ex
                   or of anything named like one, or observable mutations - otherwise the
                   translation fails closed.
 
-Helper methods (`self._set_y_X`, `self._update_y_X`, `_split_by_fh`, the strategy-specific `_fit`
-of the reducers, ...) are inlined at the call site, so a validator moved into / out of / within a
-helper, dropped, or moved behind a state mutation changes the emitted list - and with it the
-bridge lemmas `gen_chain_X = chain_X` and the safety facts computed on the regenerated lists.
+Helper methods (`self._set_y_X`, `self._update_y_X`, `_split_by_fh`, ...) are inlined at the call
+site, so a validator moved into / out of / within a helper, dropped, or moved behind a state
+mutation changes the emitted list - and with it the bridge lemmas `gen_chain_X = chain_X` and the
+safety facts computed on the regenerated lists.  Besides the configured helpers, ANY call at
+statement level (`f(..)`, `x = f(..)`, `return f(..)`, `yield f(..)`) of a function of the same file
+or of a `self._m(..)` method of the same class (or a base class in the file) is followed: its body
+is walked with the parameters replaced by the argument expressions, and if that yields events
+they are listed in place (a `raise` guard of the helper narrows the caller's path exactly like an
+inline guard; a `return` of the helper does not).  A helper whose body is outside the walker's
+subset, or that has no events, stays opaque work as before; a validator-like name that is neither
+known nor followable fails closed.  So extracting validation into a private helper (or inlining
+it back) leaves the chain unchanged.
 
 The meaning of the tests that become guards and of the calls that become validators is fixed by
 the tables below (the trusted part, like the primitive table of pyz).
 """
 import ast
+import copy
 import os
 import re
 
@@ -333,8 +342,90 @@ class Chain:
                 self.emit(path, "(AChk VFhKnown)")
                 return
 
+    def resolve_helper(self, f):
+        """A function of the same file / a method of the same class a call refers to."""
+        mod = self.ctx.mod(self.ctx.src)
+        if isinstance(f, ast.Name):
+            for n in mod.body:
+                if isinstance(n, ast.FunctionDef) and n.name == f.id:
+                    return n, False
+            return None
+        if isinstance(f, ast.Attribute) and isinstance(f.value, ast.Name) and f.value.id == "self" \
+                and "." in self.cfg["path"]:
+            classes = {n.name: n for n in mod.body if isinstance(n, ast.ClassDef)}
+            todo, seen = [self.cfg["path"].split(".")[0]], set()
+            while todo:
+                c = todo.pop(0)
+                if c in seen or c not in classes:
+                    continue
+                seen.add(c)
+                for n in classes[c].body:
+                    if isinstance(n, ast.FunctionDef) and n.name == f.attr:
+                        static = any(ast.unparse(d) == "staticmethod" for d in n.decorator_list)
+                        return n, not static
+                todo += [ast.unparse(b) for b in classes[c].bases]
+        return None
+
+    def follow(self, call, path):
+        """Walk the body of a same-file helper in place of the call. Returns the caller's path after
+        the call (narrowed by the helper's raise guards) if the helper has events, else None."""
+        nm = call.func.id if isinstance(call.func, ast.Name) else getattr(call.func, "attr", "")
+        if not nm.startswith("_") or nm.startswith("__"):
+            return None          # public API is an entry point of its own (and may be overridden)
+        r = self.resolve_helper(call.func)
+        if r is None or len(self.cfg.get("_stack", ())) >= 4:
+            return None
+        fn, takes_self = r
+        body = [x for x in fn.body if not _is_doc(x)]
+        if len(body) == 1 and isinstance(body[0], ast.Raise):
+            return None                                          # abstract method
+        if fn.name in self.cfg.get("_stack", ()):
+            return None
+        a = fn.args
+        if a.vararg or a.kwarg or a.kwonlyargs or a.posonlyargs \
+                or any(isinstance(x, ast.Starred) for x in call.args):
+            return None
+        names = [x.arg for x in a.args][1 if takes_self else 0:]
+        dflt = dict(zip(names[len(names) - len(a.defaults):], a.defaults))
+        given = dict(zip(names, call.args))
+        if len(call.args) > len(names):
+            return None
+        for kw in call.keywords:
+            if kw.arg is None or kw.arg not in names or kw.arg in given:
+                return None
+            given[kw.arg] = kw.value
+        sub_map = {}
+        for n in names:
+            if n in given:
+                sub_map[n] = given[n]
+            elif n in dflt:
+                sub_map[n] = dflt[n]
+            else:
+                return None
+        stored = {x.id for st in body for x in ast.walk(st)
+                  if isinstance(x, ast.Name) and isinstance(x.ctx, ast.Store)}
+
+        class Sub(ast.NodeTransformer):
+            def visit_Name(self, node):
+                if isinstance(node.ctx, ast.Load) and node.id in sub_map and node.id not in stored:
+                    return copy.deepcopy(sub_map[node.id])
+                return node
+        body2 = [ast.fix_missing_locations(Sub().visit(copy.deepcopy(st))) for st in body]
+        sub = Chain(self.ctx, dict(self.cfg, blocks=(),
+                                   _stack=tuple(self.cfg.get("_stack", ())) + (fn.name,)))
+        try:
+            sub.walk(body2, list(path))
+        except Unsupported:
+            return None                       # outside the walker's subset: opaque work, as before
+        if not sub.events:
+            return None
+        for p, act in sub.events:
+            self.emit(p, act)
+        return list(sub.raise_path)
+
     def validator_call(self, call, path):
-        """Emit the event of a top-level validator / helper call; False if it is neither."""
+        """Emit the event(s) of a statement-level validator / helper call. Returns the path under
+        which the caller continues, or None if the call is neither."""
         u = ast.unparse(call.func)
         vals = self.ctx.validators()
         if u in HELPERS:
@@ -349,17 +440,20 @@ class Chain:
             sub.walk(find(self.ctx.mod(src), hpath).body, list(path))
             for p, a in sub.events:
                 self.emit(p, a)
-            return True
+            return list(sub.raise_path)
         if u in vals:
             if vals[u] is None:
-                return False
+                return None
             for a in list(call.args) + [k.value for k in call.keywords]:
                 self.clean(a, "the arguments of " + u)
             self.emit(path, "(AChk %s)" % vals[u](call, self.ctx))
-            return True
+            return path
+        p2 = self.follow(call, path)
+        if p2 is not None:
+            return p2
         if CHECKLIKE.search(u) and u != "self._set_cutoff":
             raise Unsupported("%s: unknown validator %s" % (self.cfg["path"], u))
-        return False
+        return None
 
     def mutation_targets(self, tg):
         out = []
@@ -374,14 +468,56 @@ class Chain:
         return out
 
     def guard(self, test):
+        """The guard a test stands for: by its text, or by its text after replacing temporaries
+        (`m = np.max(cutoffs)` ... `if m >= n:`) by their defining expressions."""
         u = ast.unparse(test)
         if u in GUARDS:
             return GUARDS[u]
+        temps = getattr(self, "temps", {})
+        if temps:
+            class Sub(ast.NodeTransformer):
+                def visit_Name(self, node):
+                    if isinstance(node.ctx, ast.Load) and node.id in temps:
+                        return self.visit(copy.deepcopy(temps[node.id]))
+                    return node
+            u2 = ast.unparse(Sub().visit(copy.deepcopy(test)))
+            if u2 in GUARDS:
+                return GUARDS[u2]
         return None
 
+    def note_temps(self, stmts):
+        """Single-assignment temporaries with a side-effect-free right-hand side."""
+        counts = {}
+        for st in stmts:
+            for x in ast.walk(st):
+                if isinstance(x, ast.Name) and isinstance(x.ctx, ast.Store):
+                    counts[x.id] = counts.get(x.id, 0) + 1
+        pure_calls = re.compile(r"^(np\.(max|min|abs)|len|abs|min|max)$")
+
+        def pure(e):
+            for x in ast.walk(e):
+                if isinstance(x, ast.Call) and not pure_calls.match(ast.unparse(x.func)):
+                    return False
+                if isinstance(x, (ast.Lambda, ast.Yield, ast.Await, ast.NamedExpr)):
+                    return False
+                if isinstance(x, ast.Name) and counts.get(x.id, 0) > 1:
+                    return False
+            return True
+        self.temps = dict(getattr(self, "temps", {}))
+        for st in stmts:
+            if isinstance(st, ast.Assign) and len(st.targets) == 1 \
+                    and isinstance(st.targets[0], ast.Name) and counts.get(st.targets[0].id) == 1 \
+                    and pure(st.value) and not any(
+                        isinstance(x, ast.Name) and x.id == st.targets[0].id for x in ast.walk(st.value)):
+                self.temps[st.targets[0].id] = st.value
+
     def walk(self, stmts, path):
-        """Returns True if the block always returns (so nothing after it runs on this path)."""
+        """Returns "raise" / "return" if every path through the block ends that way (so nothing
+        after it runs on this path), else None.  `self.raise_path` = the path under which a CALLER
+        continues after the block (narrowed by the guards that end in a raise only)."""
         stmts = [s for s in stmts if not _is_doc(s)]
+        self.raise_path = list(path)
+        self.note_temps(stmts)
         blocks = self.cfg.get("blocks", ())
         i = 0
         while i < len(stmts):
@@ -404,10 +540,16 @@ class Chain:
             if isinstance(s, ast.Return):
                 if s.value is not None:
                     self.ret_value(s.value, path)
-                return True
+                return "return"
             if isinstance(s, ast.Raise):
                 self.emit(path, "(AChk VRaise)")
-                return True
+                return "raise"
+            if isinstance(s, ast.Expr) and isinstance(s.value, ast.Yield) \
+                    and isinstance(s.value.value, ast.Call):
+                p2 = self.validator_call(s.value.value, path)
+                if p2 is not None:
+                    path = self.narrow(path, p2)
+                    continue
             if isinstance(s, ast.Expr) and isinstance(s.value, ast.Call):
                 c = s.value
                 u = ast.unparse(c.func)
@@ -416,7 +558,9 @@ class Chain:
                 if u == "self._set_cutoff":
                     self.emit(path, "(AMut A_cutoff)")
                     continue
-                if self.validator_call(c, path):
+                p2 = self.validator_call(c, path)
+                if p2 is not None:
+                    path = self.narrow(path, p2)
                     continue
                 self.clean(s, "a work statement")
                 self.fh_access(s, path)
@@ -430,13 +574,15 @@ class Chain:
                     g = self.guard(v.test)
                     for val, pol in ((v.body, g[1]), (v.orelse, not g[1])):
                         p2 = path + [(g[0], pol)]
-                        if not (isinstance(val, ast.Call) and self.validator_call(val, p2)):
+                        if not (isinstance(val, ast.Call)
+                                and self.validator_call(val, p2) is not None):
                             self.clean(val, "a work expression")
                             self.fh_access(val, p2)
                             self.emit(p2, "AWork")
                     continue
-                if isinstance(v, ast.Call) and self.validator_call(v, path):
-                    pass
+                p2 = self.validator_call(v, path) if isinstance(v, ast.Call) else None
+                if p2 is not None:
+                    path = self.narrow(path, p2)
                 else:
                     self.clean(v, "a work expression")
                     self.fh_access(v, path)
@@ -459,14 +605,20 @@ class Chain:
                     continue
                 self.clean(s.test, "a test")
                 self.fh_access(s.test, path)
+                saved = self.raise_path
                 r1 = self.walk(s.body, path + [(g[0], g[1])])
-                r2 = self.walk(s.orelse, path + [(g[0], not g[1])]) if s.orelse else False
+                r2 = self.walk(s.orelse, path + [(g[0], not g[1])]) if s.orelse else None
+                self.raise_path = saved
                 if r1 and r2:
-                    return True
+                    return "raise" if r1 == r2 == "raise" else "return"
                 if r1:
                     path = path + [(g[0], not g[1])]
+                    if r1 == "raise":
+                        self.raise_path = self.raise_path + [(g[0], not g[1])]
                 elif r2:
                     path = path + [(g[0], g[1])]
+                    if r2 == "raise":
+                        self.raise_path = self.raise_path + [(g[0], g[1])]
                 continue
             if isinstance(s, (ast.For, ast.While, ast.With, ast.FunctionDef, ast.Try, ast.AugAssign,
                               ast.Import, ast.ImportFrom, ast.Pass, ast.Expr, ast.Assign, ast.Assert)):
@@ -488,10 +640,17 @@ class Chain:
                 self.emit(path, "AWork")
                 continue
             raise Unsupported("%s: statement %s" % (self.cfg["path"], ast.dump(s)[:80]))
-        return False
+        return None
+
+    def narrow(self, path, p2):
+        """The caller's path after an inlined helper: its raise guards also narrow what the
+        caller's own raise guards have narrowed so far."""
+        extra = [g for g in p2 if g not in path]
+        self.raise_path = self.raise_path + [g for g in extra if g not in self.raise_path]
+        return path + extra
 
     def ret_value(self, v, path):
-        if isinstance(v, ast.Call) and self.validator_call(v, path):
+        if isinstance(v, ast.Call) and self.validator_call(v, path) is not None:
             return
         if isinstance(v, ast.Name) or (isinstance(v, ast.Constant)):
             return
